@@ -354,29 +354,29 @@ Fixpoint spec_img (t : fty) (v : fval) : list N :=
      the destination is left as the decoder left it);
    - WriteTo: a nil value is the single byte TagEnd = 0; otherwise the encoder writes through a
      countingWriter and the count returned is the sum of the sizes of its Write calls. *)
-Fixpoint catch_end (eEND : N) {A} (d : dec A) : dec (option A) :=
+Fixpoint nbt_catch_end (eEND : N) {A} (d : dec A) : dec (option A) :=
   match d with
   | Ret a => Ret (Some a)
   | Fail e => if e =? eEND then Ret None else Fail e
   | Crash w => Crash w
   | NoFuel => NoFuel
-  | ReadByte k => ReadByte (fun b => catch_end eEND (k b))
-  | ReadFull n k => ReadFull n (fun bs => catch_end eEND (k bs))
-  | RawRead n k => RawRead n (fun bs => catch_end eEND (k bs))
+  | ReadByte k => ReadByte (fun b => nbt_catch_end eEND (k b))
+  | ReadFull n k => ReadFull n (fun bs => nbt_catch_end eEND (k bs))
+  | RawRead n k => RawRead n (fun bs => nbt_catch_end eEND (k bs))
   end.
 (* countingReader: c.n += n after every Read; through ReadByte / ReadFull effects exactly the bytes
    delivered (a bare Read is counted by the size asked for: the theorems are about robust decoders) *)
-Fixpoint counting {A} (d : dec A) (n : N) : dec (A * N) :=
+Fixpoint nbt_counting {A} (d : dec A) (n : N) : dec (A * N) :=
   match d with
   | Ret a => Ret (a, n)
   | Fail e => Fail e
   | Crash w => Crash w
   | NoFuel => NoFuel
-  | ReadByte k => ReadByte (fun b => counting (k b) (n + 1))
-  | ReadFull m k => ReadFull m (fun bs => counting (k bs) (n + m))
-  | RawRead m k => RawRead m (fun bs => counting (k bs) (n + m))
+  | ReadByte k => ReadByte (fun b => nbt_counting (k b) (n + 1))
+  | ReadFull m k => ReadFull m (fun bs => nbt_counting (k bs) (n + m))
+  | RawRead m k => RawRead m (fun bs => nbt_counting (k bs) (n + m))
   end.
-Definition r_nbtfield (eEND : N) {A} (d : dec A) : dec (option A * N) := counting (catch_end eEND d) 0.
+Definition r_nbtfield (eEND : N) {A} (d : dec A) : dec (option A * N) := nbt_counting (nbt_catch_end eEND d) 0.
 
 (* countingWriter *)
 Definition w_counted (ws : list (list N)) : wres :=
